@@ -27,7 +27,9 @@ theorem update_height_eq (d : Rec α β) (m : TreeImage α β) (i : Nat) :
 theorem update_child_eq (d : Rec α β) (m : TreeImage α β) (p : Nat) (b : Bool) (ch : Nat) :
     update_child d m p b ch = Imp.updateChild d m p b ch := by
   simp only [update_child, Imp.updateChild, Id.run, pure, bind, update_height_eq]
-  cases b <;> rfl
+  first
+  | done
+  | (cases b <;> rfl)
 
 theorem balance_factor_eq (d : Rec α β) (m : TreeImage α β) (l r : Nat) :
     balance_factor d m l r = Imp.balanceFactor d m l r := by
